@@ -333,3 +333,102 @@ Example C20_edit_instance :
   o_out (snd (fst (estep (init 7) CON 21 [9] 1 a 2 es (BResp 69 [] [1])))) = [bare_ack 21] /\
   map w_code (o_out (snd (fst (estep (init 7) CON 21 [9] 1 a 2 es (BResp 132 [] [1]))))) = [132].
 Proof. vm_compute. repeat split. Qed.
+
+(* ---- requests as they arrive: raw bytes of any peer, any request method (NoResp/RawModel.v: the receive
+   path from the bytes -- pool.Message.UnmarshalWithDecoder, udp/tcp coder, Options.Unmarshal with its skip of
+   options of illegal length -- to the response writer and the wire; NoResp/RawSpec.v: what a request carries) ---- *)
+From GoCoap Require Import Gen.OptionDefs Codec.Options Codec.Udp Codec.Spec Codec.ProofsOpt.
+From GoCoap Require Import NoResp.RawModel NoResp.RawSpec NoResp.RawProofs.
+
+(* Options.Unmarshal, on the RFC 7252 encoding of ANY option list a sender can write (numbers in
+   non-decreasing order, any lengths, legal for the option or not), with any option-definition table: the
+   result is exactly the sub-list of the options the decoder keeps, each under the number its sender gave it --
+   a skipped option still advances the number the deltas of the following options are added to *)
+Theorem C20_raw_unmarshal_keeps_numbers : forall defs os fuel prev processed len cap acc rest,
+  opts_enc_ok prev os -> rest_ok rest -> (length os < fuel)%nat -> len + blen os <= cap ->
+  unmarshal_opts fuel defs (spec_options prev os ++ rest) prev processed len cap acc =
+    Codec.Options.Ok (processed + blen (spec_options prev os) + rest_len rest, acc ++ filter (kept defs) os).
+Proof. exact unmarshal_skip. Qed.
+Print Assumptions C20_raw_unmarshal_keeps_numbers.
+
+(* the writer made of the DECODED options decides as RFC 7967 says for the value the request CARRIES (first
+   option 258 of legal length), whatever precedes or follows that option, for every response code *)
+Theorem C20_raw_writer_exact : forall os code, opts_enc_ok 0 os -> 0 <= code ->
+  NoResp.Model.rw_refuses (filter (kept CoapOptionDefs) os) code = spec_refuse os code.
+Proof. exact raw_writer_exact. Qed.
+Print Assumptions C20_raw_writer_exact.
+
+(* the datagram coder hands the handler the request with exactly the kept options *)
+Theorem C20_raw_udp_decode : forall m cap, raw_wf_udp m = true -> blen (m_opts m) <= cap ->
+  udp_decode cap (spec_udp_bytes m) = Codec.Options.Ok (decoded m, blen (spec_udp_bytes m)).
+Proof. exact udp_decode_raw. Qed.
+Print Assumptions C20_raw_udp_decode.
+
+(* wire clause on the BYTES, datagram transport: in every connection state, for every request a peer can
+   send -- every request code 0.01-0.31 (FETCH, PATCH, iPATCH and unassigned ones included), CON or NON, every
+   token, every carried option list of up to 16 options -- and every response code: suppressed by the carried
+   value => the handler is called, its SetResponse is refused, and exactly the bare ACK (CON) / nothing (NON)
+   is written *)
+Theorem C20_raw_udp_suppressed : forall s m rc o p,
+  raw_wf_udp m = true -> blen (m_opts m) <= PoolOptionsCap ->
+  (m_typ m = CON \/ m_typ m = NON) -> is_request_code (m_code m) = true ->
+  req_lookup (m_typ m) (m_mid m) (cache s) = None -> 0 <= rc ->
+  spec_refuse (m_opts m) rc = true ->
+  exists s1 ob seen, raw_udp_step s (spec_udp_bytes m) (BResp rc o p) = Some (s1, ob, seen) /\
+    o_called ob = true /\ NoResp.Model.rw_refuses seen rc = true /\
+    o_out ob = (if m_typ m =? CON then [bare_ack (m_mid m)] else []).
+Proof. exact raw_udp_suppressed. Qed.
+Print Assumptions C20_raw_udp_suppressed.
+
+(* ... not suppressed => accepted, and the response goes out with its code, the request's token, its payload *)
+Theorem C20_raw_udp_passed : forall s m rc o p,
+  raw_wf_udp m = true -> blen (m_opts m) <= PoolOptionsCap ->
+  (m_typ m = CON \/ m_typ m = NON) -> is_request_code (m_code m) = true ->
+  req_lookup (m_typ m) (m_mid m) (cache s) = None -> 0 <= rc ->
+  spec_refuse (m_opts m) rc = false ->
+  exists s1 ob seen r, raw_udp_step s (spec_udp_bytes m) (BResp rc o p) = Some (s1, ob, seen) /\
+    o_called ob = true /\ NoResp.Model.rw_refuses seen rc = false /\
+    o_out ob = [r] /\ w_code r = rc /\ w_tok r = m_tok m /\ w_pay r = p.
+Proof. exact raw_udp_passed. Qed.
+Print Assumptions C20_raw_udp_passed.
+
+(* stream transport: what tcp/client.Conn.ProcessReceivedMessageWithHandler writes for a decoded request *)
+Theorem C20_raw_tcp_process_exact : forall tok os rc o p, opts_enc_ok 0 os -> 0 <= rc ->
+  tcp_process tok (filter (kept CoapOptionDefs) os) (BResp rc o p) =
+    if spec_refuse os rc then []
+    else [{| t_code := rc; t_tok := tok; t_opts := match p with [] => o | _ => set_cf o end; t_pay := p |}].
+Proof. exact raw_tcp_process_exact. Qed.
+Print Assumptions C20_raw_tcp_process_exact.
+
+(* ... and on the BYTES of a request frame: the stream coder hands over exactly the kept options, and for every
+   request code and every carried option list (up to 16 options) nothing is written when the carried value
+   suppresses the class of the response; otherwise the response with its code, the request's token, its payload *)
+Theorem C20_raw_tcp_decode : forall m cap, raw_wf_tcp_msg m = true -> blen (m_opts m) <= cap ->
+  Codec.Tcp.tcp_decode cap (spec_tcp_bytes m) = Codec.Options.Ok (decoded_tcp m, blen (spec_tcp_bytes m)).
+Proof. exact tcp_decode_raw. Qed.
+Print Assumptions C20_raw_tcp_decode.
+
+Theorem C20_raw_tcp_exact : forall m rc o p, raw_wf_tcp_msg m = true -> blen (m_opts m) <= PoolOptionsCap ->
+  is_request_code (m_code m) = true -> 0 <= rc ->
+  raw_tcp_step (spec_tcp_bytes m) (BResp rc o p) =
+    Some ((if spec_refuse (m_opts m) rc then []
+           else [{| t_code := rc; t_tok := m_tok m; t_opts := match p with [] => o | _ => set_cf o end; t_pay := p |}]),
+          filter (kept CoapOptionDefs) (m_opts m)).
+Proof. exact raw_tcp_exact. Qed.
+Print Assumptions C20_raw_tcp_exact.
+
+(* non-vacuity: CON FETCH /a with Accept of three bytes (skipped by the decoder) in front of No-Response = 2:
+   the handler sees [Uri-Path; No-Response], its 2.05 is refused and only the bare ACK is written; its 4.04 goes out *)
+Example C20_raw_instance :
+  let m := {| m_tok := [170; 188]; m_code := 5; m_opts := [(11, [97]); (17, [0; 0; 50]); (258, [2])]; m_pay := [123; 125];
+              m_mid := 4661; m_typ := 0 |} in
+  raw_wf_udp m = true /\
+  spec_udp_bytes m = [66; 5; 18; 53; 170; 188; 177; 97; 99; 0; 0; 50; 209; 228; 2; 255; 123; 125] /\
+  spec_refuse (m_opts m) 69 = true /\
+  (match raw_udp_step (init 7) (spec_udp_bytes m) (BResp 69 [] [1]) with
+   | Some (_, ob, seen) => seen = [(11, [97]); (258, [2])] /\ o_out ob = [bare_ack 4661]
+   | None => False end) /\
+  (match raw_udp_step (init 7) (spec_udp_bytes m) (BResp 132 [] [1]) with
+   | Some (_, ob, _) => map w_code (o_out ob) = [132]
+   | None => False end).
+Proof. vm_compute. repeat split. Qed.
